@@ -44,11 +44,22 @@ package volume
 //@ use cmfS_range(highs, lows, closings, volumes, c.Sum.Period, _)
 //@ ensures[C15] "range" forall k :: 0 <= k && k < len(result) && (forall j :: k <= j && j < k + c.Sum.Period ==> barok(highs, lows, closings, j) && lows[j] < highs[j] && volumes[j] >= 0) && psum(volumes, k + c.Sum.Period) - psum(volumes, k) > 0 ==> 0 - 1 <= result[k] && result[k] <= 1
 
+// Distance Moved = ((High + Low) / 2) - ((Prior High + Prior Low) / 2), Box Ratio = ((Volume / 100000000) / (High - Low)),
+// EMV(1) = Distance Moved / Box Ratio (of the same, current bar), EMV(14) = SMA(14, EMV(1))
+//@ stream emvDmS(h stream, l stream)[j] = (h[j+1] + l[j+1]) / 2 - (h[j] + l[j]) / 2
+//@ stream emvBoxS(h stream, l stream, v stream)[i] = (v[i] / 100000000) / (h[i] - l[i])
+//@ stream emvRawS(h stream, l stream, v stream)[j] = emvDmS(h, l)[j] / emvBoxS(h, l, v)[j+1]
+// as implemented: the distance moved into bar j+1 is divided by the box ratio of bar j
+//@ stream emvPrevBoxS(h stream, l stream, v stream)[j] = emvDmS(h, l)[j] / emvBoxS(h, l, v)[j]
 //@ func Emv.Compute
 //@ requires e.Sma.Period >= 1 && consumed(highs) == 0 && consumed(lows) == 0 && consumed(volumes) == 0 && len(highs) == len(lows) && len(highs) == len(volumes)
 //@ ensures[C02] len(result) == max(0, len(highs) - (e.IdlePeriod()))
 //@ ensures[C03] consumed(highs) == len(highs) && consumed(lows) == len(lows) && consumed(volumes) == len(volumes) && closed(result)
 //@ ensures[C04] forall kk :: 0 <= kk && kk < len(result) ==> hor(result, kk) <= max(hor(highs, kk + (e.IdlePeriod())), max(hor(lows, kk + (e.IdlePeriod())), hor(volumes, kk + (e.IdlePeriod()))))
+//@ step[C01] "emv1" forall j :: 0 <= j && j < len(highs) - 1 ==> res(Divide, 1)[j] == emvPrevBoxS(highs, lows, volumes)[j]
+//@ use psum_cong(res(Divide, 1), emvPrevBoxS(highs, lows, volumes), _)
+//@ step[C01] "as-implemented" forall k :: 0 <= k && k < len(result) ==> result[k] == smaS(emvPrevBoxS(highs, lows, volumes), e.Sma.Period)[k]
+//@ ensures[C01] "documented" forall k :: 0 <= k && k < len(result) ==> result[k] == smaS(emvRawS(highs, lows, volumes), e.Sma.Period)[k]
 
 // FI = EMA(period, (Current - Previous) * Volume), Volume being the volume of the current bar
 //@ stream fiRawS(c stream, v stream)[j] = (c[j+1] - c[j]) * v[j+1]
@@ -108,11 +119,16 @@ package volume
 //@ ensures[C04] forall kk :: 0 <= kk && kk < len(result) ==> hor(result, kk) <= max(hor(highs, kk + (0)), max(hor(lows, kk + (0)), max(hor(closings, kk + (0)), hor(volumes, kk + (0)))))
 //@ ensures[C01] "formula" forall k :: 0 <= k && k < len(result) ==> result[k] == mfvS(highs, lows, closings, volumes)[k]
 
+// If Volume is greater than Previous Volume: NVI = Previous NVI, otherwise
+// NVI = Previous NVI + (((Closing - Previous Closing) / Previous Closing) * Previous NVI); starts from Initial
 //@ func Nvi.Compute
 //@ requires consumed(closings) == 0 && consumed(volumes) == 0 && len(closings) == len(volumes)
 //@ ensures[C02] len(result) == max(0, len(closings) - (1))
 //@ ensures[C03] consumed(closings) == len(closings) && consumed(volumes) == len(volumes) && closed(result)
 //@ ensures[C04] forall kk :: 0 <= kk && kk < len(result) ==> hor(result, kk) <= max(hor(closings, kk + (1)), hor(volumes, kk + (1)))
+//@ lit#0 invariant previous == nviR(closings, volumes, n.Initial, calls - 1)
+//@ lit#0 yields nviR(closings, volumes, n.Initial, calls)
+//@ ensures[C01] "documented" forall k :: 0 <= k && k < len(result) ==> result[k] == nviR(closings, volumes, n.Initial, k)
 
 // OBV of the previous call of the closure (0 before the first)
 //@ macro obvPrev(f, n) = (n == 0 ? 0 : f.ret(n - 1))
